@@ -75,7 +75,7 @@ def gen_c14(ctx):
     for m in range(0, 7):
         for (s0, s1) in all_sched:
             # m >= 2: the padding test `== b'='` is symbolic, buffer sizes become symbolic: 20 GB+ (thorough only)
-            dec(0, 0, m, 0, 16, s0, s1, "quick" if m <= 1 and (s0, s1) in quick_sched else "thorough", 300 if m <= 1 else 3000)
+            dec(0, 0, m, 0, 16, s0, s1, ("quick" if (s0, s1) in quick_sched else "thorough") if m <= 1 else "experimental", 300 if m <= 1 else 3000)
     # small destination buffers (padding structure concrete: m <= 1) from several buffer states
     for (o, s_) in ((0, 0), (0, 2), (1, 3), (0, 1)):
         for m in (0, 1):
@@ -86,7 +86,7 @@ def gen_c14(ctx):
     # small destination buffers with symbolic padding structure (expensive)
     for m in (2, 3, 4):
         for d in (1, 3):
-            dec(0, 0, m, 0, d, 4, 4, "thorough", 1800)
+            dec(0, 0, m, 0, d, 4, 4, "experimental", 1800)
     # bad length: never a silent truncation
     for (o, s_) in ((0, 0), (0, 2), (1, 3)):
         for m in (0, 1, 3):
@@ -96,9 +96,9 @@ def gen_c14(ctx):
                         if m == 3 and d == 1:
                             continue
                         quick = m <= 1 and (s0, s1) == (4, 4) and (o, s_) != (1, 3)
-                        dec(o, s_, m, bad, d, s0, s1, "quick" if quick else "thorough")
+                        dec(o, s_, m, bad, d, s0, s1, "quick" if quick else ("thorough" if m <= 1 else "experimental"))
     for t in (4, 8):
-        h("c14_total_t%d" % t, "dec_total_case::<%d>()" % t, "thorough", 3000,
+        h("c14_total_t%d" % t, "dec_total_case::<%d>()" % t, "experimental", 3000,
           "every text of %d arbitrary bytes, full reads" % t,
           "decoder::Base64Decoder::read, decoder::Base64Decoder::buffer_fill, decode_u8x4", 8)
     return {"c14_gen": "\n".join(out)}
@@ -179,7 +179,7 @@ info("C05",
 def gen_c06(ctx):
     out = ["// generated: sgr_face against the reference SGR machine by parameter string length", "use crate::c06::*;", ""]
     for n in range(0, 5):
-        tier = "thorough"
+        tier = "experimental"
         out.append("/// @tier %s @timeout %d\n/// @bounds every parameter string of length %d over [0-9:;] whose parameters the "
                    "reference machine defines (no palette selection)\n"
                    "/// @encodes decoder::sgr_face, decoder::sgr_color, decoder::number_decode, decoder::GraphicRenditionMatcher::decode, face::FaceModify::apply\n"
@@ -312,7 +312,7 @@ def gen_c03(ctx):
         call(2, 2, b, r, ck, k, n, "quick")
     # a rescheduled byte makes the SmallVec length symbolic inside decode's loop: > 50 min, thorough only
     for (b, r, ck, k, n) in [(2, 1, 1, 1, 0), (1, 1, 0, 0, 0), (1, 1, 1, 1, 1), (0, 1, 0, 0, 2), (2, 2, 1, 1, 1)]:
-        call(2, 2, b, r, ck, k, n, "thorough", 6000)
+        call(2, 2, b, r, ck, k, n, "experimental", 6000)
     for (b, r, ck, k, n) in [(1, 0, 1, 1, 2), (2, 1, 1, 2, 2), (0, 2, 0, 0, 3), (3, 2, 1, 2, 2)]:
         call(2, 2, b, r, ck, k, n, "thorough")
     for (s, l, n, tier) in [(2, 2, 2, "quick"), (2, 2, 3, "thorough"), (3, 2, 3, "thorough"), (2, 2, 4, "thorough"), (3, 3, 4, "thorough")]:
@@ -486,8 +486,8 @@ MATCHER_INSTANCES = {
     1: [(0, "quick", 900), (1, "thorough", 1800), (2, "thorough", 3000)],
     2: [(0, "quick", 900), (1, "thorough", 1800)],
     # DA1 collects into a BTreeSet, SGR splits on symbolic bytes: neither finishes in 20 min with one symbolic byte
-    3: [(0, "thorough", 3000), (1, "thorough", 3000)],
-    4: [(0, "quick", 900), (1, "thorough", 3000), (2, "thorough", 3000)],
+    3: [(0, "experimental", 3000), (1, "experimental", 3000)],
+    4: [(0, "quick", 900), (1, "experimental", 3000), (2, "experimental", 3000)],
     5: [(0, "thorough", 1800), (1, "thorough", 3000)],
     6: [(0, "quick", 900), (1, "quick", 900), (2, "thorough", 1800), (3, "thorough", 3000)],
     7: [(0, "thorough", 1800), (1, "thorough", 3000)],
@@ -713,7 +713,8 @@ def gen_c04(ctx):
         h("c04_cursor_r%dc%d" % (dr, dc), "cursor_case::<%d, %d, %d>(&CURSOR)" % (n, dr, dc), tier, 1800,
           "cursor report with a %d digit row and a %d digit column, every digit value (row, col >= 1)" % (dr, dc),
           "decoder::CursorPositionMatcher::decode, decoder::numbers_decode, production event automaton (table)", n + 3)
-    for (db, dc, dr, tier) in ((1, 1, 1, "quick"), (2, 1, 1, "thorough"), (1, 2, 2, "thorough"), (2, 2, 2, "thorough")):
+    # the 1-digit mouse shape needs ~16 min next to 13 other instances: thorough tier (quick checks stay under 15 min)
+    for (db, dc, dr, tier) in ((1, 1, 1, "thorough"), (2, 1, 1, "thorough"), (1, 2, 2, "thorough"), (2, 2, 2, "thorough")):
         n = 6 + db + dc + dr
         h("c04_mouse_b%dc%dr%d" % (db, dc, dr), "mouse_case::<%d, %d, %d, %d>(&MOUSE)" % (n, db, dc, dr), tier, 3000,
           "SGR mouse report with a %d digit button code, %d digit column, %d digit row, press and release" % (db, dc, dr),
